@@ -42,6 +42,10 @@ CHECKS = {
    tech="one TLC-decided verdict per case (JtWrapper over JtArray, which takes only type kind, dtype, shape) is the oracle for the eager and every traced execution; eager x2 value seeds, jit, eval_shape, vmap (3 in_axes forms), jit(vmap), grad",
    text="For each generated decorated function over jax.Array the accept/reject outcome under jit / vmap / grad / eval_shape / compositions must equal the eager outcome on concrete arrays with two different value seeds, and both must equal the outcome TLC computes from shapes alone; array objects are reused across calls and sibling calls interleaved so that value- or identity-based shortcuts surface.",
    note="Sampled cases (seeded). JAX 0.6.2 CPU only."),
+ "C05": dict(cat="model_checking", sec="5 C05",
+   tech="TLA+ state machine JtProgram (context stack, frames, pending generators; actions call/badcall/enterctx/check/argcheck/return/raise/makegen/gennext) explored exhaustively by TLC with invariants Balanced, TopLevelEmpty, ArgsOfInnermost and action property CallerUntouched; broken pop discipline refuted; every behaviour of N actions and simulated long behaviours replayed on the code by a script interpreter; recorded executions validated by Trace_JtProgram",
+   text="TLC explores every program (1.2M distinct states) over decorated calls of every flavour (new-style, old-style, typechecker=None), context blocks, manual checks, {arg} checks, return, Exception/BaseException under every catching discipline, generator creation and resumption, 3 frames deep; all 37k behaviours of 3 actions (1.2M of 4 in the thorough tier) and simulated behaviours of 12 actions are executed for real and the stack depth, axis binding and verdict after every action compared with the specification; the logged executions are additionally accepted line by line by the trace specification.",
+   note="One axis name, sizes 1..2. Dataclass __init__ and methods are exercised by the C02/C13 harness, not here. Coroutines excluded (known finding D8)."),
 }
 NOT_YET = {}
 
